@@ -134,6 +134,13 @@ Proof.
   - right. split; [reflexivity|exact Wt].
 Qed.
 
+Lemma in_replace_other (a1 a2 : mapping) k old new k' v' :
+  In (k', v') (a1 ++ (k, old) :: a2) -> k' <> k -> In (k', v') (a1 ++ (k, new) :: a2).
+Proof.
+  intros H N0. apply in_app_or in H. apply in_or_app. destruct H as [H|[H|H]]; [left; exact H| |right; right; exact H].
+  injection H as -> _. contradiction.
+Qed.
+
 Section Route.
   Variable rec : mapping -> mapping.
   Variable d : nat.
@@ -145,7 +152,8 @@ Section Route.
     node_ok U s -> wf_key b -> decomp b c rest -> (length rest <= d)%nat ->
     compatD (denm s) (split_dot b) ->
     let s' := route rec (pre_text c) (DOT :: join_dot rest) (Scalar n) s in
-    node_ok U s' /\ Permutation (denm s') ((split_dot b, n) :: denm s).
+    node_ok U s' /\ Permutation (denm s') ((split_dot b, n) :: denm s) /\
+    (forall k' v', In (k', v') s -> contains_any k' = true -> k' <> ANY -> In (k', v') s').
   Proof.
     intros Ns Wb Dc Ld Cp. destruct Dc as [Es Fc Nr Wr Er _ Eb Et].
     unfold route. cbv zeta. rewrite Eb.
@@ -168,15 +176,17 @@ Section Route.
         { apply (compat_sub (denm (a1 ++ (ANY, Mapping t) :: a2)) _ [ANY]); [rewrite Es in Cp; exact Cp|].
           intros x Hx. rewrite denm_app, denm_cons, den_e_any. apply in_or_app. right. apply in_or_app. left.
           apply in_map. exact Hx. }
-        destruct (HR t Wt Ct) as [WR PR]. split.
+        destruct (HR t Wt Ct) as [WR PR]. split; [|split].
         * eapply node_ok_replace; [exact Ns|]. constructor; [exact WR|eapply perm_nonnil; exact PR].
         * rewrite !denm_app, !denm_cons, !den_e_any, Es. apply (perm_mid _ _ _ _ (pre [ANY] (rest, n))).
           apply (Permutation_map (pre [ANY])) in PR. exact PR.
-      + apply m_get_none in G. split.
+        * intros k' v' Hk _ Nk. eapply in_replace_other; eassumption.
+      + apply m_get_none in G. split; [|split].
         * apply node_ok_append; [exact Ns|exact G|]. constructor; [exact WR0|eapply perm_nonnil; exact PR0].
         * rewrite denm_app, denm_cons, den_e_any, denm_nil, app_nil_r, Es.
           apply Permutation_sym. apply Permutation_trans with (denm s ++ [(ANY :: rest, n)]); [apply Permutation_cons_append|].
           apply Permutation_app_head. apply (Permutation_map (pre [ANY])) in PR0. apply Permutation_sym. exact PR0.
+        * intros k' v' Hk _ _. apply in_or_app. left. exact Hk.
     - (* a chunk of specific segments precedes the wildcard *)
       destruct (Et ltac:(discriminate)) as [Etop [Ktop Stop]].
       set (cc := c0 :: c1) in *.
@@ -195,16 +205,18 @@ Section Route.
             [rewrite Es in Cp; rewrite <- app_assoc; exact Cp|].
           intros x0 Hx. rewrite denm_app, denm_cons, den_e_chunk, Stop. apply in_or_app. right. apply in_or_app. left.
           rewrite map_map. apply in_map_iff. exists x0. split; [rewrite pre_pre; reflexivity|exact Hx]. }
-        destruct (HR t Wt Ct) as [WR PR]. split.
+        destruct (HR t Wt Ct) as [WR PR]. split; [|split].
         * eapply node_ok_replace; [exact Ns|]. constructor; [exact Ktop|exact WR|eapply perm_nonnil; exact PR].
         * rewrite !denm_app, !denm_cons, !den_e_chunk, Stop, Es, !map_map.
           apply (perm_mid _ _ _ _ (pre cc (pre [ANY] (rest, n)))).
           apply (Permutation_map (fun x0 => pre cc (pre [ANY] x0))) in PR. exact PR.
-      + rewrite Esub0. apply m_get_none in G. split.
+        * intros k' v' Hk Ck _. eapply in_replace_other; [exact Hk|]. intros ->. unfold key_ok in Ktop. congruence.
+      + rewrite Esub0. apply m_get_none in G. split; [|split].
         * apply node_ok_append; [exact Ns|exact G|]. constructor; [exact Ktop|exact WR0|eapply perm_nonnil; exact PR0].
         * rewrite denm_app, denm_cons, den_e_chunk, denm_nil, app_nil_r, Stop, Es, map_map.
           apply Permutation_sym. apply Permutation_trans with (denm s ++ [(cc ++ ANY :: rest, n)]); [apply Permutation_cons_append|].
           apply Permutation_app_head. apply (Permutation_map (fun x0 => pre cc (pre [ANY] x0))) in PR0.
           apply Permutation_sym. exact PR0.
+        * intros k' v' Hk _ _. apply in_or_app. left. exact Hk.
   Qed.
 End Route.
